@@ -92,6 +92,8 @@ func c14(c *Ctx) {
 	c14agg(c)
 	c14contexts(c)
 	c14ratio(c)
+	c14sentinel(c)
+	extSpecParseError(c)
 	r.Decides("pod-level and container-level setters use the same extractor on the same list (Requests for shares, Limits for quota and memory), the same conversion, the same post-conversion adjustment (division by the scale ratio above 1, nothing else), the same response field and the same disabled-quota value")
 	r.Decides("every write of the response is dominated by the pod being BE and an extended resource spec being present")
 	r.Decides("the CPU normalization ratio read from the node is always handed to the rule, also when the annotation is gone (-1)")
